@@ -385,9 +385,9 @@ func runC03(cfg *vh.Config) error {
 			var ty *codecgen.Ty
 			wrap := func(v *codecgen.J) *codecgen.J { return v }
 			switch {
-			case p.Ty.Class == "scalar":
+			case p.Ty.Class == "scalar" || p.Ty.Class == "enum":
 				ty = p.Ty
-			case (p.Ty.Class == "array" || p.Ty.Class == "map") && p.Ty.Item.Class == "scalar":
+			case (p.Ty.Class == "array" || p.Ty.Class == "map") && (p.Ty.Item.Class == "scalar" || p.Ty.Item.Class == "enum"):
 				ty = p.Ty.Item
 				pt := p.Ty
 				if p.Ty.Class == "array" {
@@ -398,7 +398,22 @@ func runC03(cfg *vh.Config) error {
 			default:
 				continue
 			}
-			for _, lit := range boundary[ty.Kind] {
+			lits := boundary[ty.Kind]
+			if ty.Class == "enum" {
+				// every option by both names, and names that are not options: the zero option of a no_default
+				// enum is not in the schema and must be rejected like any other unknown name
+				lits = nil
+				if es := t.Env.Lookup(ty.Ref); es != nil {
+					for _, nm := range []string{"UNSPECIFIED", es.Prefix + "UNSPECIFIED", es.Prefix, "", "unspecified"} {
+						lits = append(lits, codecgen.Str(nm))
+					}
+					for _, o := range es.Options {
+						lits = append(lits, codecgen.Str(o.Name), codecgen.Str(es.Prefix+o.Name), codecgen.Str(es.Prefix+es.Prefix+o.Name), codecgen.Str(strings.ToLower(o.Name)))
+					}
+					lits = append(lits, codecgen.Num("0"), codecgen.Num("1"))
+				}
+			}
+			for _, lit := range lits {
 				v := lit.Clone()
 				v.Ty = ty
 				tree := codecgen.Obj()
